@@ -424,3 +424,12 @@ Definition setter_getter_mismatch (cs : list pyclass) (ps : list pyprops)
       let F := backing_fields fs (getter_reads reads (pp_class p) prop) prop in
       flat_map (fun a => if str_in a fs && negb (str_in a F) then [(pp_class p, prop, a)] else []) (snd pr))
       (pp_props p)) ps.
+
+(* accessors that search a C array: (1) no return/break/continue sits in a `for` body without an `if` between the `for` and
+   it (otherwise only the first element is ever inspected); (2) when both the getter and the setter of a property search,
+   they test the same condition, so they locate the same element. *)
+Definition unguarded_loop_exits (l : list (string * string * string * string * bool))
+  : list (string * string * string * string * bool) :=
+  filter (fun e => negb (snd e)) l.
+Definition search_mismatch (l : list (string * string * bool * bool * bool)) : list (string * string) :=
+  flat_map (fun e => let '(c, p, g, s, same) := e in if g && s && negb same then [(c, p)] else []) l.
